@@ -498,3 +498,7 @@
 			Err(_) => assert!(false),
 		}
 	}
+
+	// Byte-level run of write_subject_alt_names (one IPv4 entry of 4 symbolic bytes, params forgotten to avoid drop
+	// glue) was tried again during the build: no answer in 1200 s (rule K3 stands: walking a Vec of payload-carrying
+	// enums is not tractable for CBMC). The SAN / subtree / distribution-point writers are decided by engine S only.
